@@ -8,8 +8,8 @@ from harness import common as C
 from harness import gridprobes as G
 
 PROP = "C05"
-TARGETS = ["IbicusModel.Props.C05"]
-GEN = ["GridDispatch"]
+TARGETS = ["IbicusModel.Props.C05", "IbicusModel.Lemmas.GenGridLoops"]
+GEN = ["GridDispatch", "GridLoops"]
 
 SHAPES = [(1, 1), (1, 4), (4, 1), (2, 3), (3, 2), (2, 2), (1, 2), (3, 1), (3, 3)]
 DTYPES = ["f8", "f4", "i8", "mixed"]
@@ -113,6 +113,199 @@ def check_state(case, deb, snap, obs, hist, fut, problems):
                          {**case, **G.pack(obs, hist, fut)}))
 
 
+# ---------------------------------------------------------------------------------------------------------------------------------
+# Call sequences on ONE debiaser instance.  Quantifiers of the property covered here: "configurations" — a configuration reached by
+# assigning settings on an existing instance (apply re-derives the helper objects, running windows etc., from them), not only one
+# passed to the constructor — and "schedules" in the sense of the order of calls: the instance has already worked on ANOTHER data set
+# (other calendar, equal or different lengths), has been copied / pickled, and the per-location calls `apply_location` are made on that
+# very instance before and after the grid call, not on a fresh one.  Judged: serial apply = parallel apply = stacked apply_location on
+# the instance itself (before the grid call when no assigned setting is waiting for apply to re-derive it, and after it) = stacked
+# apply_location on an instance freshly constructed (attrs.evolve -> __init__) from the instance's current settings.  Bitwise.
+HISTORY_PATTERNS = ("set", "serial-then", "loc-then", "apply-then-set", "set-then-parallel-first", None, None, None)
+
+
+def gen_history(rng, name, pattern=None):
+    """a JSON-able history case: steps before the judged grid run + the calendars / lengths of the earlier (A) and the judged (B) data set"""
+    import datetime
+
+    deb = G.history_debiasers()[name]()
+    cur = {k: getattr(deb, k) for k in G.HISTORY_SETTINGS if hasattr(deb, k)}
+
+    def set_step():
+        window_fields = [f for f in ("running_window_length", "running_window_step_length", "running_window_over_years_of_cm_future_length") if f in cur]
+        for _ in range(40):
+            f = rng.choice(window_fields) if window_fields and rng.random() < 0.6 else rng.choice(sorted(cur))
+            v = rng.choice(G.HISTORY_SETTINGS[f])
+            if f == "running_window_step_length" and v < 7 and not name.startswith(("rw/WindowProbe", "rw/LinearScaling", "rw/DeltaChange")):
+                continue  # wall time: a fit per window and per day of the year
+            new = {**cur, f: v}
+            if (v == cur[f] or new.get("running_window_step_length", 0) > new.get("running_window_length", 10**9)
+                    or new.get("running_window_over_years_of_cm_future_step_length", 0) > new.get("running_window_over_years_of_cm_future_length", 10**9)):
+                continue
+            cur[f] = v
+            return ["set", f, v]
+        return ["copy"]
+
+    def apply_step(par=None):
+        par = rng.random() < 0.35 if par is None else par
+        return ["apply", "parallel" if par else "serial", rng.choice([1, 2, 3])]
+
+    nx, ny = rng.choice([(1, 2), (2, 1), (2, 2), (1, 3)])
+
+    def loc_step():
+        return ["loc", rng.randrange(nx), rng.randrange(ny)]
+
+    if pattern == "set":
+        steps = [set_step()]
+    elif pattern == "serial-then":
+        steps = [apply_step(False)]
+    elif pattern == "loc-then":
+        steps = [loc_step()]
+    elif pattern == "apply-then-set":
+        steps = [apply_step(), set_step()]
+    elif pattern == "set-then-parallel-first":
+        steps = [set_step(), [rng.choice(["pickle", "copy", "deepcopy"])]] if rng.random() < 0.5 else [set_step()]
+    else:
+        steps = []
+        for _ in range(rng.randint(1, 3)):
+            u = rng.random()
+            steps.append(set_step() if u < 0.35 else apply_step() if u < 0.65 else loc_step() if u < 0.85 else [rng.choice(["pickle", "copy", "deepcopy"])])
+
+    def starts():
+        return [(datetime.date(rng.randint(1970, 2050), 1, 1) + datetime.timedelta(days=rng.randint(20, 340))).isoformat() for _ in range(3)]
+
+    lengths_B = [rng.randint(380, 460) for _ in range(3)]
+    same_lengths = pattern in ("serial-then", "loc-then") or rng.random() < 0.65
+    lengths_A = list(lengths_B) if same_lengths else [rng.randint(380, 460) for _ in range(3)]
+    starts_B = starts() if (pattern is not None or rng.random() < 0.8) else None
+    starts_A = starts() if rng.random() < 0.8 else None
+    same_data = pattern is None and rng.random() < 0.1  # the earlier work was on the very same data set: a repeated run
+    if same_data:
+        lengths_A, starts_A = list(lengths_B), starts_B
+    order = ["serial", "parallel"]
+    if pattern == "set-then-parallel-first" or (pattern is None and rng.random() < 0.5):
+        order.reverse()
+    return dict(kind="dc" if "DeltaChange" in name else "deb", what="history/" + name, name=name, pattern=pattern, nx=nx, ny=ny, steps=steps,
+                lengths_A=lengths_A, starts_A=starts_A, lengths_B=lengths_B, starts_B=starts_B, same_data=same_data,
+                time_type=rng.choice(["date", "date", "datetime64"]), order=order, nproc=rng.choice([1, 2, 2, 3]),
+                data_seed=rng.randint(0, 2**31 - 1), seed=C.seed())
+
+
+def history_data(case):
+    nprs = np.random.RandomState(case["data_seed"])
+    nx, ny = case["nx"], case["ny"]
+    sb = case["starts_B"] or [None] * 3
+    B = tuple(G.seasonal_grid(nprs, T, nx, ny, m, st) for T, m, st in zip(case["lengths_B"], (283, 285, 287), sb))
+    if case["same_data"]:
+        return tuple(x.copy() for x in B), B
+    sa = case["starts_A"] or [None] * 3
+    A = tuple(G.seasonal_grid(nprs, T, nx, ny, m, st) for T, m, st in zip(case["lengths_A"], (281, 286, 289), sa))
+    return A, B
+
+
+def run_history(case, A, B):
+    """takes one instance through the steps of the case on data set A, then judges the grid run on data set B.
+    returns (problems: [text], note | None); never raises for a failure of the code under test"""
+    import copy
+    import pickle
+    import warnings
+
+    import attrs
+
+    problems = []
+    deb = G.history_debiasers()[case["name"]]()
+    kwA = G.history_time_kwargs(case["starts_A"], case["lengths_A"], case["time_type"])
+    kwB = G.history_time_kwargs(case["starts_B"], case["lengths_B"], case["time_type"])
+    pending = False  # a setting was assigned and no apply has re-derived the helper objects since
+
+    def loc(d, data, i, j, kw):
+        with warnings.catch_warnings():
+            warnings.simplefilter("ignore")
+            try:
+                return ("ok", d.apply_location(data[0][:, i, j].copy(), data[1][:, i, j].copy(), data[2][:, i, j].copy(), **kw))
+            except Exception as ex:  # noqa: BLE001
+                return ("error", type(ex).__name__, G.safe_str(ex))
+
+    def fresh_of(d):
+        with warnings.catch_warnings():
+            warnings.simplefilter("ignore")
+            return attrs.evolve(copy.deepcopy(d))
+
+    for n, st in enumerate(case["steps"]):
+        try:
+            if st[0] == "set":
+                setattr(deb, st[1], st[2])
+                pending = True
+                continue
+            if st[0] in ("pickle", "copy", "deepcopy"):
+                deb = pickle.loads(pickle.dumps(deb)) if st[0] == "pickle" else copy.copy(deb) if st[0] == "copy" else copy.deepcopy(deb)
+                continue
+        except Exception as ex:  # noqa: BLE001
+            return problems, f"step {n} {st} is not possible on this debiaser ({type(ex).__name__}: {G.safe_str(ex)[:80]}) — case skipped"
+        if st[0] == "apply":
+            control = fresh_of(deb)
+            r = G.run_apply(deb, *A, parallel=(st[1] == "parallel"), nproc=st[2], **kwA)
+            pending = False
+            rc = None if r[0] == "ok" else G.run_apply(control, *A, **kwA)
+        else:
+            control = None if pending else fresh_of(deb)
+            r = loc(deb, A, st[1], st[2], kwA)
+            rc = None if (r[0] == "ok" or control is None) else loc(control, A, st[1], st[2], kwA)
+        if r[0] != "ok":
+            if rc is not None and rc[0] == "ok":
+                problems.append(f"history step {n} {st} on the earlier data set raised {r[1]}: {r[2]} on the instance with this history, "
+                                "but not on an instance freshly constructed from the same settings")
+                return problems, None
+            return problems, (f"step {n} {st} raises {r[1]} " + ("while an assigned setting awaits apply (a direct apply_location call there is outside the property)"
+                                                                if control is None else "also on a fresh instance") + " — case skipped")
+
+    proto = copy.deepcopy(deb)
+
+    def fresh():
+        return attrs.evolve(proto)
+
+    out_T = B[0].shape[0] if case["kind"] == "dc" else B[2].shape[0]
+    ref, errs = G.stacked(fresh, *B, out_T, np.dtype(float), **kwB)
+    if errs:
+        c = sorted(errs)[0]
+        return problems, f"location {c} raises {type(errs[c]).__name__} on a freshly constructed instance — not an instance of C05, case skipped"
+
+    def judge(label, r):
+        if r[0] != "ok":
+            problems.append(f"{label}: raised {r[1]}: {r[2]} although every location returns a series on a freshly constructed instance")
+            return
+        out = r[1]
+        if out.shape != ref.shape:
+            problems.append(f"{label}: output shape {out.shape}, expected {ref.shape}")
+        elif not np.array_equal(out, ref, equal_nan=True):
+            bad = np.argwhere(~((out == ref) | (np.isnan(out) & np.isnan(ref))))
+            t, i, j = (int(v) for v in bad[0])
+            problems.append(f"{label}: column ({i},{j}) differs from apply_location on that cell alone (instance freshly constructed from the same settings) "
+                            f"(t={t}: {out[t, i, j]!r} vs {ref[t, i, j]!r}; {len(bad)} elements differ in {len({(int(a), int(b)) for _, a, b in bad})} cells)")
+
+    def same_instance(label):
+        got, e = G.stacked(deb, *B, out_T, np.dtype(float), **kwB)
+        if e:
+            c = sorted(e)[0]
+            judge(label, ("error", type(e[c]).__name__, f"at location {c}: " + G.safe_str(e[c])))
+        else:
+            judge(label, ("ok", got))
+
+    if not pending:
+        same_instance("apply_location per cell on the instance itself BEFORE the grid call")
+    outs = {}
+    for mode in case["order"]:
+        label = "serial grid run" if mode == "serial" else f"parallel/{case['nproc']} grid run"
+        r = G.run_apply(deb, *B, parallel=(mode == "parallel"), nproc=case["nproc"], **kwB)
+        judge(label, r)
+        if r[0] == "ok":
+            outs[mode] = r[1]
+    if len(outs) == 2 and not G.same(outs["serial"], outs["parallel"]):
+        problems.append(f"parallel/{case['nproc']} and serial return different arrays on the same instance")
+    same_instance("apply_location per cell on the instance itself AFTER the grid calls")
+    return problems, None
+
+
 def run(tier, res, force_search=False):
     rng = random.Random(C.seed() * 104729 + 5)
     res.rule = ("cases = (debiaser kind, grid shape, three time lengths, dtypes, failsafe flag, optional wrong-length / length-1 marker cell) from one PRNG "
@@ -120,7 +313,9 @@ def run(tier, res, force_search=False):
                 "time lengths; distinct = distinct (kind, nx, ny, To, Th, Tf, dtype, marker, failsafe, memory layouts) tuples; memory layouts (C, Fortran, stored [x,y,t] / [y,x,t], "
                 "strided) per input, 8 forced layout cases on non-square grids; process counts include the default and 8 (> number of cells). Real debiasers: 8 x small grids, "
                 "running windows with time arrays, QDM pr with an all-dry first cell, ISIMIP with a degenerate first cell, argument aliasing; serial + parallel, "
-                "reference = apply_location on copies with a FRESH instance")
+                "reference = apply_location on copies with a FRESH instance; call sequences on one instance (settings assigned after construction, earlier "
+                "serial / parallel / per-location work on another data set with another calendar and equal or different lengths, copy / pickle), judged "
+                "serial = parallel = per-location on the instance itself before and after the grid call = per-location on a freshly constructed instance")
     res.trusted = C.BASE_TRUSTED + [
         "multiprocessing.Pool.starmap is modelled by Model.Grid.poolRun/starmap (slots indexed by argument position, explicit completion schedule); "
         "the starmap contract is *derived* from that model (Props.C05.starmap_contract), that the runtime behaves like the model is trusted and exercised by the tier-B runs",
@@ -144,6 +339,10 @@ def run(tier, res, force_search=False):
         "a column is a copy by construction); pickle round trip of the debiaser leaves apply_location unchanged (object identity / pickling); state outside "
         "the instance (class attributes, module globals, numpy's global generator) — the instance-state model (StCell) covers state carried by the instance "
         "only, whose chunk-wise copying it reproduces exactly (counting probe); float rounding differences between a strided view and a contiguous copy of a column",
+        "history of the instance: Model.Grid.applyRefresh (apply = self.__attrs_post_init__() as a function refresh on the instance state, then the map of the "
+        "instance's own location function in BOTH branches) is my reading of the first statement of Debiaser.apply / DeltaChange.apply; the theorems "
+        "refreshed_instance_* / history_irrelevant are stated on it; that the real classes behave so (settings assigned after construction, earlier work on another "
+        "data set / calendar, copies, per-location calls on the very instance before and after the grid call) is decided by the call-sequence cases on the real code",
         "instance state: the theorems pure_instance_* assume PureSt (apply_location leaves the instance unchanged); that the built-in debiasers are pure is "
         "checked on the real code (vars(instance) before/after apply, fresh-instance reference) and by C12's write-site tie, not proved here",
     ]
@@ -423,6 +622,34 @@ def run(tier, res, force_search=False):
             if not sensitive:
                 res.notes.append(f"{name}: case with starts {starts} does not depend on the time arrays")
 
+    # ---- call sequences on one instance (see gen_history / run_history): settings assigned after construction, earlier work on another
+    #      data set with another calendar (equal lengths or not), copies; per-location calls on the very instance before / after the grid call
+    hist_names = ["rw/WindowProbe", "rw/LinearScaling", "rw/DeltaChange"]
+    hist_other = ["rw/QuantileMapping", "isimip/tas-windows", "yw/CDFt", "yw/QuantileDeltaMapping", "LinearScaling", "DeltaChange", "ISIMIP"]
+    n_hist = 20 if tier == "quick" else 60
+    if force_search or not lean_ok or mismatches:
+        n_hist *= 3
+    import time
+
+    t_hist = time.time()
+    for k in range(n_hist):
+        name = hist_names[k % 3] if k % 4 != 3 else hist_other[(k // 4 + C.seed()) % len(hist_other)]
+        case = gen_history(rng, name, HISTORY_PATTERNS[(k // 3) % len(HISTORY_PATTERNS)] if k % 4 != 3 else rng.choice(HISTORY_PATTERNS))
+        A, B = history_data(case)
+        try:
+            probs, note = run_history(case, A, B)
+        except Exception as ex:  # noqa: BLE001  (the code under test is called under try inside run_history; this is a last resort)
+            probs, note = [f"the call sequence raised {type(ex).__name__}: {G.safe_str(ex)}"], None
+        if note:
+            res.notes.append(f"history/{name}: {note}")
+        for p in probs:
+            problems.append((p, {**case, **G.pack(*B), **({} if case["same_data"] else G.pack(*A, prefix="prev_"))}))
+        res.count(("history", name, str(case["steps"]), tuple(case["lengths_A"]), tuple(case["lengths_B"]), str(case["starts_A"]), str(case["starts_B"]),
+                   tuple(case["order"]), case["nproc"]), note is None,
+                  sample={k_: v for k_, v in case.items() if k_ != "data_seed"} if k == 0 else None)
+
+    res.extra["history_cases"], res.extra["history_seconds"] = n_hist, round(time.time() - t_hist, 2)
+
     # ---- precipitation debiasers whose fit runs an optimiser / hurdle model: a degenerate (all-dry) cell is processed first;
     #      cell alone = in grid = in the grid with a different predecessor = parallel, bitwise
     # (QuantileDeltaMapping pr uses only fit + ppf of the left-censored gamma model; the hurdle / censored *cdf* of the other pr debiasers draws
@@ -524,6 +751,15 @@ def replay(data):
     if not fi or "obs" not in fi:
         print("replay: no failing input recorded (a proof obligation / the correspondence broke):", str(data.get("broken"))[:300])
         return 2
+    if str(fi.get("what", "")).startswith("history/"):  # a call sequence on one instance: re-run the steps on the recorded data sets
+        B = G.unpack(fi)
+        A = tuple(x.copy() for x in B) if fi.get("same_data") else G.unpack(fi, "prev_")
+        probs, note = run_history({k: v for k, v in fi.items() if not isinstance(v, dict)}, A, B)
+        for p in probs:
+            print("REPRODUCED:", p)
+        if not probs:
+            print("not reproduced: the property holds on this call sequence" + (f" ({note})" if note else ""))
+        return 1 if probs else 0
     obs, hist, fut = G.unpack(fi)
     if fi.get("layouts"):
         obs, hist, fut = (G.relayout(a, lay) for a, lay in zip((obs, hist, fut), fi["layouts"]))
